@@ -24,7 +24,8 @@ type Profile struct {
 	GenFail      bool     // the relay address generator fails at a scripted call (a failed Allocate leaves nothing behind)
 	LongAlloc    bool     // allocation lifetime 2 h so that permission/channel horizons are not cut short (C07)
 	OddSometimes bool     // draw per case whether the odd Allocate options are used
-	Fragments    []string // structured fragments mixed into the random steps: perm, chan, alloc
+	Fragments    []string // structured fragments mixed into the random steps: perm, chan, alloc, stall
+	StallStreams bool     // at least one stream client, always with a small receive window (C18)
 }
 
 var lifetimes = []int64{-1, -1, -1, 0, 1, 2, 30, 59, 60, 61, 300, 599, 600, 601, 1800, 3599, 3600, 3601, 86400, 1 << 31, 1<<32 - 1}
@@ -101,7 +102,10 @@ func genConfig(rt *rapid.T, p *Profile) Config {
 				cfg.Stream = append(cfg.Stream, i)
 			}
 		}
-		if len(cfg.Stream) > 0 && rapid.IntRange(0, 2).Draw(rt, "flowControl") == 0 {
+		if p.StallStreams && len(cfg.Stream) == 0 {
+			cfg.Stream = append(cfg.Stream, rapid.IntRange(0, nc-1).Draw(rt, "theStream"))
+		}
+		if len(cfg.Stream) > 0 && (p.StallStreams || rapid.IntRange(0, 2).Draw(rt, "flowControl") == 0) {
 			cfg.StreamWindow = rapid.SampledFrom([]int{64, 256, 512, 1024, 4096}).Draw(rt, "streamWindow")
 		}
 	}
@@ -432,6 +436,22 @@ func genFragment(rt *rapid.T, p *Profile, cfg *Config) []Step {
 		if rapid.IntRange(0, 1).Draw(rt, "frebind") == 0 {
 			out = append(out, Step{Op: "ChannelBind", C: c, P: []int{peer2}, Ch: ch, Life: -1}, Step{Op: "ChannelBind", C: c, P: []int{peer}, Ch: ch2, Life: -1})
 		}
+	case "stall":
+		// a stream client authorises a peer, stops reading while the peer floods it, and its
+		// allocation is torn down meanwhile
+		if len(cfg.Stream) > 0 {
+			c = rapid.SampledFrom(cfg.Stream).Draw(rt, "fstallClient")
+		}
+		if rapid.IntRange(0, 2).Draw(rt, "fstallAlloc") > 0 {
+			out = append(out, Step{Op: "Allocate", C: c, Life: rapid.SampledFrom([]int64{-1, -1, 30, 120, 600}).Draw(rt, "fstallLife")})
+		}
+		if rapid.IntRange(0, 2).Draw(rt, "fstallChan") > 0 {
+			out = append(out, Step{Op: "ChannelBind", C: c, P: []int{peer}, Ch: ch, Life: -1})
+		} else {
+			out = append(out, Step{Op: "CreatePermission", C: c, P: []int{peer}, Life: -1})
+		}
+		out = append(out, Step{Op: "StallTeardown", C: c, P: []int{peer}, Life: -1, N: rapid.IntRange(40, 1200).Draw(rt, "fstallN"), Seed: rapid.Uint64Range(0, 1<<16).Draw(rt, "fstallSeed"),
+			Opt: rapid.SampledFrom([]string{"refresh0", "refresh0", "expire", "expire", "close-ctrl", "chan-expire"}).Draw(rt, "fstallKind")})
 	default: // alloc
 		life := rapid.SampledFrom([]int64{-1, 30, 60, 600, 3599, 3600}).Draw(rt, "flife")
 		life2 := rapid.SampledFrom([]int64{-1, 30, 61, 599, 3600, 86400}).Draw(rt, "flife2")
